@@ -131,7 +131,7 @@ Lemma case_meaning_scales :
     let E36 := lin_ticks_E tolv no base eb ao bo (so_st3 ob) (so_major3 ob) None in
     let E37 := lin_nice_E tolv no base eb ao bo (so_nst2 ob) (so_nmin2 ob) (so_nmax2 ob) in
     let bl := negb E30 || negb E36 || negb E37 in
-    let found := exists l, lin_nice_level base eb no (fst (lin_start mn mx)) (snd (lin_start mn mx)) l in
+    let rep := lin_nice_rep_spec base eb no (fst (lin_start mn mx)) (snd (lin_start mn mx)) in
     (* 10: Ticks(o) *)
     G (lin_ticks_E tolv o base eb mn mx (so_st ob) (so_major ob) (Some (so_minor ob)))
     (lin_ticks_A tolv o base eb mn mx (so_st ob) (so_major ob) (Some (so_minor ob)))
@@ -155,13 +155,13 @@ Lemma case_meaning_scales :
     (* 40: idempotent for Max >= 3 *)
     Lw bl ((3 <= o_max no)%Z -> so_nst2 ob = 0%Z /\ exists a2 b2, so_nmin2 ob = XFin a2 /\ so_nmax2 ob = XFin b2 /\
     Qabs (a2 - ao) <= tolv ao /\ Qabs (b2 - bo) <= tolv bo) /\
-    (* 41: first and last major tick after Nice are the new ends (Max >= 3, a level was found) *)
-    Lw bl ((3 <= o_max no)%Z -> found -> exists f rest t0 tl, so_major3 ob = f :: rest /\ f = XFin t0 /\ last (so_major3 ob) f = XFin tl /\
+    (* 41: first and last major tick after Nice are the new ends (Max >= 3, Nice found a level whose two candidate ends are finite float64) *)
+    Lw bl ((3 <= o_max no)%Z -> rep -> exists f rest t0 tl, so_major3 ob = f :: rest /\ f = XFin t0 /\ last (so_major3 ob) f = XFin tl /\
     Qabs (t0 - ao) <= tolv ao /\ Qabs (tl - bo) <= tolv bo) /\
     (* 43: Map(new Min) = 0, Map(new Max) = 1 *)
     (~ ao == bo -> exists p q, so_map0 ob = XFin p /\ so_map1 ob = XFin q /\ Qabs p <= e12 /\ Qabs (q - 1) <= e12) /\
-    (* 45: each end moved by at most one observed major tick spacing (Max >= 3, a level was found) *)
-    Lw bl ((3 <= o_max no)%Z -> found -> exists t0 t1 rest u1 u0 rest',
+    (* 45: each end moved by at most one observed major tick spacing (Max >= 3, Nice found a level whose two candidate ends are finite float64) *)
+    Lw bl ((3 <= o_max no)%Z -> rep -> exists t0 t1 rest u1 u0 rest',
     so_major3 ob = XFin t0 :: XFin t1 :: rest /\ rev (so_major3 ob) = XFin u1 :: XFin u0 :: rest' /\
     fst (lin_start mn mx) - ao <= t1 - t0 + tolv ao /\ bo - snd (lin_start mn mx) <= u1 - u0 + tolv bo))%Q) /\
   (forall (tolv : Q -> Q) (base eb : Z) (o : tickopts) (mn mx : Q) (st : Z) (major : list xreal) (minor : option (list xreal)), lin_ticks_spec tolv base eb o mn mx st major minor <->
@@ -199,6 +199,10 @@ Lemma case_meaning_scales :
   (forall (base eb : Z) (mn mx : Q) (l : Z), lin_out_count base eb mn mx l =
    (let sp := lin_spacing base eb l in let sl := (mx - mn) * slack_factor in
     (Qceiling ((mx - sl) / sp) - Qfloor ((mn + sl) / sp) + 1)%Z)%Q) /\
+  (forall (base eb : Z) (o : tickopts) (smn smx : Q), lin_nice_rep_spec base eb o smn smx <->
+   (exists l, lin_nice_level base eb o smn smx l /\
+    let sp := lin_spacing base eb l in let sl := (smx - smn) * slack_factor in
+    Qabs (inject_Z (Qfloor ((smn + sl) / sp)) * sp) < qpow 2 1024 /\ Qabs (inject_Z (Qceiling ((smx - sl) / sp)) * sp) < qpow 2 1024)%Q) /\
   (forall (c : sccase), lc_tolv c =
    (let w := Qabs (sc_mx c - sc_mn c) in let w := if Qeqb w 0 then 1 else w in
     fun v : Q => e9 * Qabs v + e9 * w)%Q) /\
@@ -237,12 +241,12 @@ Lemma case_meaning_scales :
     Lw bl ((3 <= o_max no)%Z -> so_nst2 ob = 0%Z /\ exists a2 b2, so_nmin2 ob = XFin a2 /\ so_nmax2 ob = XFin b2 /\
     Qabs (a2 - ao) <= tolv ao /\ Qabs (b2 - bo) <= tolv bo) /\
     (* 41 *)
-    Lw bl ((3 <= o_max no)%Z -> log_nice_fits base no mn mx -> exists f rest t0 tl, so_major3 ob = f :: rest /\ f = XFin t0 /\
+    Lw bl ((3 <= o_max no)%Z -> log_nice_rep_spec base no mn mx -> exists f rest t0 tl, so_major3 ob = f :: rest /\ f = XFin t0 /\
     last (so_major3 ob) f = XFin tl /\ Qabs (t0 - ao) <= tolv ao /\ Qabs (tl - bo) <= tolv bo) /\
     (* 43 *)
     (~ ao == bo -> exists p q, so_map0 ob = XFin p /\ so_map1 ob = XFin q /\ Qabs p <= e12 /\ Qabs (q - 1) <= e12) /\
     (* 45 *)
-    Lw bl ((3 <= o_max no)%Z -> log_nice_fits base no mn mx ->
+    Lw bl ((3 <= o_max no)%Z -> log_nice_rep_spec base no mn mx ->
     log_law45_spec (lf_neg mn mx) (lf_emin mn mx) (lf_emax mn mx) (lf_emin ao bo) (lf_emax ao bo) (so_major3 ob)))%Q) /\
   (forall (tolv : Q -> Q) (b : Z) (o : tickopts) (mn mx : Q) (st : Z) (major : list xreal) (minor : option (list xreal)), log_ticks_spec tolv b o mn mx st major minor <->
    (st = 0 /\
@@ -277,9 +281,13 @@ Lemma case_meaning_scales :
     exists lo hi, level_bounds o = Some (lo, hi) /\ forall l, lo <= l <= hi -> o_max o < log_count e true l) -> x = mn /\ y = mx) /\
     ((0 < mn)%Q -> (mn < mx)%Q ->
     (x = mn \/ exists n, x = qpow b n /\ f64_pos_ok x = true) /\ (y = mx \/ exists n, y = qpow b n /\ f64_pos_ok y = true)))%Z) /\
-  (forall (b : Z) (o : tickopts) (mn mx : Q), log_nice_fits b o mn mx <->
+  (forall (b : Z) (o : tickopts) (mn mx : Q), log_nice_rep_spec b o mn mx <->
    (~ (mn == mx)%Q /\ exists lo hi l, level_bounds o = Some (lo, hi) /\ 1 <= o_max o /\
-    nonincreasing (log_count (log_e b mn mx) true) lo hi /\ lo <= l <= hi /\ log_count (log_e b mn mx) true l <= o_max o)%Z) /\
+    let e := log_e b mn mx in
+    nonincreasing (log_count e true) lo hi /\ lo <= l <= hi /\ log_count e true l <= o_max o /\
+    (forall l', lo <= l' < l -> o_max o < log_count e true l') /\
+    let f := le_out_lo e / 2 ^ l in let la := cdiv (le_out_hi e) (2 ^ l) in
+    log_end_ok b (2 ^ l) f (qpow b (f * 2 ^ l)) = true /\ log_end_ok b (2 ^ l) la (qpow b (la * 2 ^ l)) = true)%Z) /\
   (forall (neg : bool) (emin emax emin3 emax3 : Q) (major3 : list xreal), log_law45_spec neg emin emax emin3 emax3 major3 <->
    (exists t, major3 = map XFin t /\
     let t' := if neg then rev (map Qopp t) else t in
